@@ -40,8 +40,8 @@ PROPS = {
                      "the two-service root pools; every case is also run with trace logging on. Non-trivial = "
                      "distinct (table, request, outcome) whose outcome is not a plain 404 (a route ran, or "
                      "405/415/406 was chosen)."),
-    "C03": dict(modes={"quick": [("path", "quick"), ("roots", "quick"), ("order3", "quick")],
-                       "thorough": [("path", "thorough"), ("roots", "thorough"), ("order3", "quick")]},
+    "C03": dict(modes={"quick": [("path", "quick"), ("roots", "quick"), ("order3", "quick"), ("roots4", "quick")],
+                       "thorough": [("path", "thorough"), ("roots", "thorough"), ("order3", "quick"), ("roots4", "quick")]},
                 plan=dict(perms=3, slash=False, entries=["D"]),
                 random={"quick": [("mixed", 300, 20)], "thorough": [("mixed", 4000, 30)]},
                 counter="dominance",
@@ -154,7 +154,38 @@ def sig_c17_nested(ev, mis, table):
     return surplus <= allm
 
 
-SIGNATURES = {"c18-crossing-templates": sig_c18_crossing, "c17-nested-roots-options": sig_c17_nested}
+def curly_score(root_toks):
+    n = len(root_toks)
+    return sum(1 if is_var(t) else (n - i) * 10 for i, t in enumerate(root_toks))
+
+
+def sig_c03_equal_score_roots(ev, mis, table):
+    """CurlyRouter, two registration orders select different WebServices whose roots both claim the URL, are
+    crossing (different shapes) and have the same CurlyRouter score"""
+    if mis["clause"] != "C03.order":
+        return False
+    x, y = mis["variant"]
+    if x[0] != "curly" or y[0] != "curly":
+        return False
+    outs = [o for o in ev["outs"] if o["k"] in ("route", "err")]
+    def svc_of(v):
+        for o in outs:
+            if v in o["vs"]:
+                return o
+        return None
+    # the services selected under the two orders: from route outcomes, or (error outcomes) any two claiming roots
+    url = toks(ev["req"]["path"])
+    claiming = []
+    for s in table["services"]:
+        rt = toks(s["root"])
+        if len(rt) <= len(url) and all(is_var(t) or t == u for t, u in zip(rt, url)):
+            claiming.append(rt)
+    pairs = [(a, b) for i, a in enumerate(claiming) for b in claiming[i + 1:]]
+    return any(len(a) == len(b) and crossing(a, b) and curly_score(a) == curly_score(b) for a, b in pairs)
+
+
+SIGNATURES = {"c18-crossing-templates": sig_c18_crossing, "c17-nested-roots-options": sig_c17_nested,
+              "c03-equal-score-crossing-roots": sig_c03_equal_score_roots}
 
 
 def classify(run, ev, mis, table, known):
